@@ -571,9 +571,9 @@ impl<'a, I: HInput<'a>, E: HErr<'a, I>> Builder<'a, I, E> {
             IT::ISep(a, sep, lo, hi, lead, trail) => {
                 bxu(self.sep(self.g(a)?, self.g(sep)?, *lo, *hi, *lead, *trail))
             }
-            IT::IRepCfg(a, lo, hi) => bxu(
+            IT::IRepCfg(a, lo, hi, ck) => bxu(
                 self.rep(self.g(a)?, *lo, *hi)
-                    .configure(|cfg, ctx: &Val| cfg.exactly(val_count(ctx))),
+                    .configure({ let ck = *ck; move |cfg, ctx: &Val| rep_cfg(cfg, ck, val_count(ctx)) }),
             ),
             _ => return unsupported("RepUnit: only IRep, ISep, IRepCfg at the root"),
         })
@@ -649,9 +649,9 @@ impl<'a, I: HInput<'a>, E: HErr<'a, I>> Builder<'a, I, E> {
             IT::ISep(a, sep, lo, hi, lead, trail) if !mapped => {
                 self.iter2(self.sep(self.g(a)?, self.g(sep)?, *lo, *hi, *lead, *trail), &ads, fin)
             }
-            IT::IRepCfg(a, lo, hi) if !mapped => self.iter2(
+            IT::IRepCfg(a, lo, hi, ck) if !mapped => self.iter2(
                 self.rep(self.g(a)?, *lo, *hi)
-                    .configure(|cfg, ctx: &Val| cfg.exactly(val_count(ctx))),
+                    .configure({ let ck = *ck; move |cfg, ctx: &Val| rep_cfg(cfg, ck, val_count(ctx)) }),
                 &ads,
                 fin,
             ),
@@ -663,9 +663,9 @@ impl<'a, I: HInput<'a>, E: HErr<'a, I>> Builder<'a, I, E> {
             IT::ISep(a, sep, lo, hi, lead, trail) => {
                 self.both2(self.sep(self.g_unit(a)?, self.g(sep)?, *lo, *hi, *lead, *trail), &ads, fin)
             }
-            IT::IRepCfg(a, lo, hi) => self.both2(
+            IT::IRepCfg(a, lo, hi, ck) => self.both2(
                 self.rep(self.g_unit(a)?, *lo, *hi)
-                    .configure(|cfg, ctx: &Val| cfg.exactly(val_count(ctx))),
+                    .configure({ let ck = *ck; move |cfg, ctx: &Val| rep_cfg(cfg, ck, val_count(ctx)) }),
                 &ads,
                 fin,
             ),
@@ -840,4 +840,15 @@ impl<T: Item> Item for (usize, T) {
 
 fn items_val<T: Item, C: IntoIterator<Item = T>>(items: C) -> Val {
     Val::List(items.into_iter().map(T::into_val).collect())
+}
+
+
+/// The configuring closure of `IRepCfg`: which bounds it sets from the context-derived count `n`.
+fn rep_cfg(cfg: chumsky::combinator::RepeatedCfg, ck: usize, n: usize) -> chumsky::combinator::RepeatedCfg {
+    match ck {
+        0 => cfg.exactly(n),
+        1 => cfg.at_least(n),
+        2 => cfg.at_most(n),
+        _ => cfg,
+    }
 }
